@@ -148,40 +148,36 @@ Definition build_symbol (p : pattern) (it : cell) (idx len : N) (improper enext 
     Ok (if enext then find_expanded_variables it p1 else p1, ect).
 
 (* Pattern::build, 80-134.  [expr.iter().enumerate().peekable()] walks the chain; the
-   recursive call is on an element that is a pair (an improper tail is never a pair). *)
+   recursive call ([rec]) is on an element that is a pair (an improper tail is never a
+   pair).  The loop is written with the recursive function as a parameter so that it has
+   a name of its own. *)
+Definition build_loop (rec : cell -> pattern -> out pattern) (len : N) (improper : bool) :=
+  fix loop (rest : cell) (idx : N) (ect : N) (p : pattern) {struct rest} : out pattern :=
+    match rest with
+    | CNil => Ok p
+    | CPair it rest' =>
+        let enext := ellipsis_next p rest' in
+        match it with
+        | CSym _ =>
+            do (p1, ect1) <- build_symbol p it idx len improper enext ect;
+            loop rest' (idx + 1) ect1 p1
+        | CPair _ _ =>
+            let p1 := if enext then find_expanded_variables it p else p in
+            do p2 <- rec it p1;
+            loop rest' (idx + 1) ect p2
+        | _ => loop rest' (idx + 1) ect p
+        end
+    | other =>
+        (* the improper tail, yielded as the last element (peek = None), or a non-pair
+           [expr], which its own iterator yields once (idx 0, len 1) *)
+        match other with
+        | CSym _ => do (p1, _) <- build_symbol p other idx len improper false ect; Ok p1
+        | _ => Ok p
+        end
+    end.
+
 Fixpoint build (expr : cell) (p : pattern) {struct expr} : out pattern :=
-  let improper := is_improper_list expr in
-  let len := N.of_nat (length (elems expr)) in
-  match expr with
-  | CNil => Ok p
-  | CPair _ _ =>
-      (fix loop (rest : cell) (idx : N) (ect : N) (p : pattern) {struct rest} : out pattern :=
-         match rest with
-         | CNil => Ok p
-         | CPair it rest' =>
-             let enext := ellipsis_next p rest' in
-             match it with
-             | CSym _ =>
-                 do (p1, ect1) <- build_symbol p it idx len improper enext ect;
-                 loop rest' (idx + 1) ect1 p1
-             | CPair _ _ =>
-                 let p1 := if enext then find_expanded_variables it p else p in
-                 do p2 <- build it p1;
-                 loop rest' (idx + 1) ect p2
-             | _ => loop rest' (idx + 1) ect p
-             end
-         | other =>
-             (* the improper tail, yielded as the last element; peek = None *)
-             match other with
-             | CSym _ => do (p1, _) <- build_symbol p other idx len improper false ect; Ok p1
-             | _ => Ok p
-             end
-         end) expr 0 0 p
-  | CSym _ =>
-      (* a non-pair expr is yielded once by its own iterator (idx 0, len 1) *)
-      do (p1, _) <- build_symbol p expr 0 len improper false 0; Ok p1
-  | _ => Ok p
-  end.
+  build_loop build (N.of_nat (length (elems expr))) (is_improper_list expr) expr 0 0 p.
 
 (* Pattern::try_new, 39-55 *)
 Definition pattern_try_new (expr ellipsis : cell) (literals : list cell) : out pattern :=
@@ -191,6 +187,8 @@ Definition pattern_try_new (expr ellipsis : cell) (literals : list cell) : out p
   build d p.
 
 (* -------------------------------------------------- check_template_syntax (249-283) *)
+(* Models the REPAIRED code (fix F15, see [expands] below); the pinned code is the same
+   without the [expands] test. *)
 (* the Symbol arm of the loop body, 265-278 *)
 Definition cts_symbol (p : pattern) (ellipsis : cell) (t : cell) (improper : bool)
     (peek : option cell) (eip : bool) : out bool :=
@@ -201,31 +199,55 @@ Definition cts_symbol (p : pattern) (ellipsis : cell) (t : cell) (improper : boo
     else Ok true
   else Ok eip.
 
+(* [expands], added by the F15 fix (repo branch wp-mac, a436e50): can expanding the
+   element run out of bindings — is it, or does it contain outside of a nested ellipsis,
+   a variable bound under an ellipsis in the pattern? *)
+Definition followed_by (ellipsis : cell) (rest : cell) : bool :=       (* iter.peek() == Some(&ellipsis) *)
+  match peek_cell rest with Some c => cell_eqb c ellipsis | None => false end.
+
+Definition expands_atom (p : pattern) (t : cell) : bool :=
+  match t with CSym _ => is_expanded_variable p t | _ => false end.
+Fixpoint expands (p : pattern) (ellipsis : cell) (t : cell) {struct t} : bool :=
+  match t with
+  | CSym _ => is_expanded_variable p t
+  | CPair _ _ =>
+      (fix walk (rest : cell) {struct rest} : bool :=
+         match rest with
+         | CPair it rest' =>
+             if negb (followed_by ellipsis rest') && expands p ellipsis it then true
+             else walk rest'
+         | CNil => false
+         | other => expands_atom p other      (* the improper tail: peek = None *)
+         end) t
+  | _ => false
+  end.
+
+(* the `while let` of 262-281, the recursive function as a parameter *)
+Definition cts_loop (rec : cell -> out unit) (p : pattern) (ellipsis : cell) (improper : bool) :=
+  fix loop (rest : cell) (eip : bool) {struct rest} : out unit :=
+    match rest with
+    | CNil => Ok tt
+    | CPair t rest' =>
+        (* F15 fix: the element before an ellipsis must be able to run out of bindings *)
+        if followed_by ellipsis rest' && negb (expands p ellipsis t) then Err E_OTHER else
+        match t with
+        | CPair _ _ => do _ <- rec t; loop rest' eip
+        | CSym _ => do eip1 <- cts_symbol p ellipsis t improper (peek_cell rest') eip; loop rest' eip1
+        | _ => loop rest' eip
+        end
+    | other =>
+        (* an improper tail, or a non-pair template (yielded once by its own iterator) *)
+        match other with
+        | CSym _ => do _ <- cts_symbol p ellipsis other improper None eip; Ok tt
+        | _ => Ok tt
+        end
+    end.
+
 Fixpoint check_template_syntax (template : cell) (p : pattern) (ellipsis : cell)
     {struct template} : out unit :=
-  let improper := is_improper_list template in
-  match template with
-  | CPair a _ =>
-      if cell_eqb a ellipsis then Err E_OTHER        (* 258-260 *)
-      else
-      (fix loop (rest : cell) (eip : bool) {struct rest} : out unit :=
-         match rest with
-         | CNil => Ok tt
-         | CPair t rest' =>
-             match t with
-             | CPair _ _ => do _ <- check_template_syntax t p ellipsis; loop rest' eip
-             | CSym _ => do eip1 <- cts_symbol p ellipsis t improper (peek_cell rest') eip; loop rest' eip1
-             | _ => loop rest' eip
-             end
-         | other =>
-             match other with
-             | CSym _ => do _ <- cts_symbol p ellipsis other improper None eip; Ok tt
-             | _ => Ok tt
-             end
-         end) template false
-  | CSym _ => do _ <- cts_symbol p ellipsis template improper None false; Ok tt
-  | _ => Ok tt
-  end.
+  if (match template with CPair a _ => cell_eqb a ellipsis | _ => false end) then Err E_OTHER  (* 258-260 *)
+  else cts_loop (fun t => check_template_syntax t p ellipsis) p ellipsis
+                (is_improper_list template) template false.
 
 (* ------------------------------------------------------ Transform::try_new (174-230) *)
 Definition all_symbols (l : list cell) : bool := forallb is_symbol l.
@@ -302,44 +324,50 @@ Definition pm_select (in_ellipsis : bool) (pit : list cell) (cur : cell) (expr_l
     | [] => SelReturn false
     end.
 
+(* the `loop` of 345-418; [rec] is the recursive call of 408 *)
+Definition pm_loop (rec : cell -> cell -> bindings -> out (option bindings)) :=
+  fix loop (eit : list cell) (pit : list cell) (cur : cell) (in_ellipsis : bool)
+           (env : bindings) {struct eit} : out (option bindings) :=
+    match eit with
+    | [] => Ok (if pm_end in_ellipsis pit then Some env else None)
+    | e :: eit' =>
+        match pm_select in_ellipsis pit cur (length eit') with
+        | SelReturn b => Ok (if b then Some env else None)
+        | SelPattern cur' pit' =>
+            let in_ellipsis' := peek_is ellipsis pit' in          (* 395 *)
+            match cur' with
+            | CSym _ =>
+                if tr_is_literal cur' then
+                  if negb (cell_eqb cur' e) then Ok None
+                  else loop eit' pit' cur' in_ellipsis' env
+                else if negb (cell_eqb cur' UNDERSCORE) then
+                  loop eit' pit' cur' in_ellipsis' (env ++ [(cur', e)])   (* add_binding *)
+                else loop eit' pit' cur' in_ellipsis' env
+            | CPair _ _ =>
+                do r <- rec cur' e env;
+                match r with
+                | Some env' => loop eit' pit' cur' in_ellipsis' env'
+                | None => Ok None
+                end
+            | _ =>
+                if negb (cell_eqb cur' e) then Ok None
+                else loop eit' pit' cur' in_ellipsis' env
+            end
+        end
+    end.
+
+(* the two guards of 330-335 *)
+Definition pm_guard (pattern expr : cell) : bool :=
+  ((is_pair pattern || is_nil pattern) && negb (is_pair expr || is_nil expr))
+  || (is_pair expr && is_pair pattern && negb (Bool.eqb (is_list expr) (is_list pattern))).
+
 Fixpoint pattern_match (fuel : nat) (pattern expr : cell) (env : bindings) {struct fuel}
   : out (option bindings) :=
   match fuel with
   | O => NoFuel
   | S f =>
-      if (is_pair pattern || is_nil pattern) && negb (is_pair expr || is_nil expr) then Ok None   (* 330-332 *)
-      else if is_pair expr && is_pair pattern && negb (Bool.eqb (is_list expr) (is_list pattern))
-      then Ok None                                                                             (* 333-335 *)
-      else
-      (fix loop (eit : list cell) (pit : list cell) (cur : cell) (in_ellipsis : bool)
-                (env : bindings) {struct eit} : out (option bindings) :=
-         match eit with
-         | [] => Ok (if pm_end in_ellipsis pit then Some env else None)
-         | e :: eit' =>
-             match pm_select in_ellipsis pit cur (length eit') with
-             | SelReturn b => Ok (if b then Some env else None)
-             | SelPattern cur' pit' =>
-                 let in_ellipsis' := peek_is ellipsis pit' in          (* 395 *)
-                 match cur' with
-                 | CSym _ =>
-                     if tr_is_literal cur' then
-                       if negb (cell_eqb cur' e) then Ok None
-                       else loop eit' pit' cur' in_ellipsis' env
-                     else if negb (cell_eqb cur' UNDERSCORE) then
-                       loop eit' pit' cur' in_ellipsis' (env ++ [(cur', e)])   (* add_binding *)
-                     else loop eit' pit' cur' in_ellipsis' env
-                 | CPair _ _ =>
-                     do r <- pattern_match f cur' e env;
-                     match r with
-                     | Some env' => loop eit' pit' cur' in_ellipsis' env'
-                     | None => Ok None
-                     end
-                 | _ =>
-                     if negb (cell_eqb cur' e) then Ok None
-                     else loop eit' pit' cur' in_ellipsis' env
-                 end
-             end
-         end) (elems expr) (elems pattern) CNil false env
+      if pm_guard pattern expr then Ok None
+      else pm_loop (pattern_match f) (elems expr) (elems pattern) CNil false env
   end.
 End Match.
 
